@@ -4,6 +4,7 @@ import (
 	"encoding/json"
 	"fmt"
 	"os"
+	"regexp"
 	"strconv"
 	"verif/ast"
 	"verif/gen"
@@ -175,3 +176,19 @@ func devMS(pool *sup.Pool, args []string) int {
 }
 
 func init() { devCmds["ms"] = devMS }
+
+func devShape(pool *sup.Pool, args []string) int {
+	n := 0
+	re := regexp.MustCompile(`prc\[\w+, \w+\] : [^\n]*=\n    (print \w+;\n    )*\w+\(\w`)
+	for i := 0; i < 300; i++ {
+		o := gen.Opt{MaxSplit: 4, Pol: 2, Alias: 30, ExplicitSelf: 15, ExplicitProv: 15, Exec: 10, Print: 8, TopMax: 3, Fuel: 3, MultiProv: 60, Drop: 12, Split: 35, Tail: 30, Mixed: i%2 == 0, MainMode: []ast.Mode{ast.Rep, ast.Lin, ast.Mul, ast.Lin}[i%4]}
+		p, _, _ := gen.Generate(int64(i)*31+7, &o)
+		if re.MatchString(p.Text()) {
+			n++
+		}
+	}
+	fmt.Println("programs with a multi-name process whose body is a call with arguments:", n, "of 300")
+	return 0
+}
+
+func init() { devCmds["shape"] = devShape }
